@@ -31,16 +31,8 @@ def _git_head(path):
         return "?"
 
 
-def cmd_check(args):
-    prop = args.property.upper()
-    tier = os.environ.get("VERIF_TIER") or args.tier
-    seed = int(os.environ.get("VERIF_SEED", "0") or 0)
-    workers = int(os.environ.get("VERIF_WORKERS", "0") or 0) or min(16, os.cpu_count() or 4)
-    symx.setup_repo_path()
-    sys.path.insert(0, VERIF_DIR)
-    mod = importlib.import_module(harness_module(prop))
-    if getattr(mod, "CUSTOM_MAIN", None):
-        return mod.CUSTOM_MAIN(tier, seed, workers)
+def run_tasks(prop, mod, module_name, tier, seed, workers):
+    """Explore every task of a harness module on the worker pool. Returns (specs, results, violation)."""
     t0 = time.time()
     tasks = mod.tasks(tier)
     budget = mod.BUDGET[tier]  # dict(max_secs total wall, task_secs, task_paths)
@@ -48,7 +40,7 @@ def cmd_check(args):
     for i, params in enumerate(tasks):
         specs.append(
             {
-                "module": harness_module(prop),
+                "module": module_name,
                 "params": params,
                 "seed": seed,
                 "task_id": i,
@@ -89,7 +81,23 @@ def cmd_check(args):
                 violation = r
                 break
         pool.terminate()
+    return specs, results, violation
+
+
+def cmd_check(args):
+    prop = args.property.upper()
+    tier = os.environ.get("VERIF_TIER") or args.tier
+    seed = int(os.environ.get("VERIF_SEED", "0") or 0)
+    workers = int(os.environ.get("VERIF_WORKERS", "0") or 0) or min(16, os.cpu_count() or 4)
+    symx.setup_repo_path()
+    sys.path.insert(0, VERIF_DIR)
+    mod = importlib.import_module(harness_module(prop))
+    if getattr(mod, "CUSTOM_MAIN", None):
+        return mod.CUSTOM_MAIN(tier, seed, workers)
+    t0 = time.time()
+    specs, results, violation = run_tasks(prop, mod, harness_module(prop), tier, seed, workers)
     rc = finish(prop, mod, tier, seed, specs, results, violation, t0)
+    cost_file = os.path.join(VERIF_DIR, "task_costs", f"{prop}-{tier}.json")
     if rc == EXIT_OK and os.environ.get("VERIF_WRITE_COSTS") and len(results) == len(specs):
         os.makedirs(os.path.dirname(cost_file), exist_ok=True)
         with open(cost_file, "w") as f:
